@@ -110,3 +110,16 @@ _P["C09"] = {
                    "correspondence: frames through encode/decode/encode with the demultiplexing decided from the bytes by an independent function, lanes exhaustively.",
     "trusted_base": _PKT_TRUSTED, "assumptions": [],
 }
+
+_P["C14"] = {
+    "explanation": "Theorems C14_* (Properties/C14.v): for every schedule of atomic draws the ids are pairwise distinct up to 2^32 draws, "
+                   "work on independent values is interleaving-independent; the premises (the draw is atomic.AddUint32; no package-level variable is written "
+                   "after init except atomically) are re-extracted from /repo's source by harness/srcfacts on every run and checked by GenProps/C14g.v; "
+                   "correspondence: 2..64 goroutines drawing ids (also across the 32-bit wrap) and building/encoding/parsing under the race detector.",
+    "trusted_base": ["harness/srcfacts (go/parser + go/ast; syntactic, conservative: anything it cannot classify blocks the theorem)",
+                     "sync/atomic and the Go memory model; the Go race detector (sampled schedules)"],
+    "assumptions": ["real schedules are sampled; the for-all-schedules claim is about the model whose atomicity premise is read from the source"],
+    "gen_props": ["C14g"], "race": {"quick": True, "thorough": True},
+}
+_P["C15"]["gen_props"] = ["C15g"]
+_P["C15"]["trusted_base"] = _P["C15"]["trusted_base"] + ["harness/srcfacts for 'lookup returns a fresh record' and 'the registry is never written' (GenProps/C15g.v)"]
